@@ -217,3 +217,161 @@ Proof.
   - apply forallb_forall. intros y Hy. apply in_map_iff in Hy as (x & <- & _). apply Hwf.
   - exists o', tt, t', b. rewrite (map_single c f t ls sp F). auto.
 Qed.
+
+(* ---------- tree_broadcast_common ---------- *)
+From OptreeProofs Require Import PrefixOrder JoinOrder JoinLeast PrefixErrProofs UpToPartition JoinRealise.
+
+Lemma tflat_flatten c x lx tx bx : tflat c (S (c_limit c)) x = Ok (lx, tx, bx) ->
+  flatten c x = Ok (lx, {| trav := encode tx; snil := c_nil c; sns := spec_ns c bx |}).
+Proof. intros H. destruct (flat_of_tflat c _ x lx tx bx H) as [Hf _]. unfold flatten. rewrite Hf. reflexivity. Qed.
+
+(* the subtrees flatten_up_to finds in a tree that flattens, flatten *)
+Lemma flattened_subs_flatten c o1 o2 ls1 sp1 s1 ls2 sp2 subs :
+  c_pred c = None -> wf_obj o1 = true -> wf_obj o2 = true ->
+  flatten c o1 = Ok (ls1, sp1) -> sspec_of sp1 = Some s1 -> flatten c o2 = Ok (ls2, sp2) ->
+  ss_flatten_up_to (c_reg c) s1 o2 = Ok subs ->
+  exists rs, Forall2 (fun sub r => flatten c sub = Ok r) subs rs.
+Proof.
+  intros Hp W1 W2 F1 S1 F2 Hu.
+  destruct (flatten_good c o1 ls1 sp1 W1 F1) as (s1' & E1 & G1). rewrite S1 in E1. injection E1 as <-.
+  destruct (up_to_spec c o1 ls1 sp1 s1 o2 F1 S1) as (t1 & b1 & Ht1 & Heq). rewrite Heq in Hu.
+  assert (Hst : stree_of s1 = t1).
+  { destruct (flatten_tflat c o1 ls1 sp1 F1) as (t & b & Ht & Hsp & Hw). rewrite Ht1 in Ht. injection Ht as <- <-.
+    subst sp1. unfold sspec_of in S1. cbn [trav] in S1. rewrite (decode_encode t1 (wf_arity_ok t1 Hw)) in S1. injection S1 as <-. reflexivity. }
+  rewrite Hst in G1.
+  destruct (flatten_tflat c o2 ls2 sp2 F2) as (t2 & b2 & Ht2 & _ & _).
+  destruct (up_to_partition c Hp t1 G1 (proj1 (tflat_spec_ok c _ o1 _ _ _ Ht1)) _ o2 ls2 t2 b2 subs W2 Ht2 Hu) as [HF _].
+  clear - HF. induction HF as [|x l ([[lx tx] bx] & Hx) _ (rs & IH)]; [exists []; constructor|].
+  eexists (_ :: rs). constructor; [exact (tflat_flatten c x lx tx bx Hx) | exact IH].
+Qed.
+
+Lemma tbp_unfold c t full ls sp s subs ys :
+  flatten c t = Ok (ls, sp) -> sspec_of sp = Some s -> ss_flatten_up_to (c_reg c) s full = Ok subs ->
+  length subs = length ls ->
+  Forall2 (fun pr y => broadcast_leaves c (fst pr) (snd pr) = Ok y) (combine ls subs) ys ->
+  tree_broadcast_prefix c t full = unflatten sp ys.
+Proof.
+  intros F Hs Hu Hl HF. unfold tree_broadcast_prefix, tree_map, tree_map_trace, sspec_res. rewrite F, Hs.
+  cbn [mapM]. rewrite Hu. cbn [bind]. unfold zip_cols. rewrite (zip_cols_go_two ls subs (length ls)) by (congruence || apply le_n).
+  assert (HF' : Forall2 (fun pr y => forall j : nat,
+            (fun (_ : nat) row => match row with [x; sub] => broadcast_leaves c x sub | _ => Err InternalError end) j [fst pr; snd pr] = Ok y)
+            (combine ls subs) ys).
+  { clear - HF. induction HF; constructor; [intros _; assumption | assumption]. }
+  pose proof (mapM_trace_rows2 _ ls subs ys 0 HF') as Hm.
+  destruct (mapM_trace _ 0 (rows2 ls subs)) as [res tr]. cbn [fst] in Hm. subst res. reflexivity.
+Qed.
+
+Lemma bleaves_mapM c : forall prs ys,
+  Forall2 (fun pr y => broadcast_leaves c (fst pr) (snd pr) = Ok y) prs ys ->
+  mapM (fun '(x, sub) => broadcast_leaves c x sub) prs = Ok ys.
+Proof.
+  induction 1 as [|[x sub] y prs ys Hy _ IH]; [reflexivity|]. cbn [mapM]. cbn [fst snd] in Hy. rewrite Hy. cbn [bind]. rewrite IH. reflexivity.
+Qed.
+
+(* every prefix leaf can be broadcast over the subtree found at its path *)
+Lemma bleaves_total c : c_pred c = None -> forall ls subs rs,
+  length subs = length ls -> forallb (leaflike c) ls = true -> forallb wf_obj subs = true ->
+  Forall2 (fun sub r => flatten c sub = Ok r) subs rs ->
+  exists ys, Forall2 (fun pr y => broadcast_leaves c (fst pr) (snd pr) = Ok y) (combine ls subs) ys.
+Proof.
+  intros Hp. induction ls as [|x ls IH]; intros [|sub subs] rs Hl Hll Hw HF; try discriminate Hl; [exists []; constructor|].
+  inversion HF as [|? [lq spq] ? rs' Hq Hrest]; subst. injection Hl as Hl.
+  simpl in Hll, Hw. apply andb_true_iff in Hll as [Hx Hll]. apply andb_true_iff in Hw as [Wsub Hw].
+  destruct (IH subs rs' Hl Hll Hw Hrest) as (ys & Hys).
+  destruct (flatten_unflatten_replace_wf c sub lq spq (repeat x (length lq)) Hp Wsub Hq) as (y & _ & Hy & _).
+  { apply repeat_length. }
+  { apply forallb_forall. intros z Hz. apply repeat_spec in Hz. subst z. exact Hx. }
+  exists (y :: ys). cbn [combine]. constructor; [|exact Hys]. cbn [fst snd]. unfold broadcast_leaves. rewrite Hq. cbn [bind]. exact Hy.
+Qed.
+
+Lemma unflatten_trav' s s' ls : trav s = trav s' -> unflatten s ls = unflatten s' ls.
+Proof. intros H. unfold unflatten, sanity. rewrite H. reflexivity. Qed.
+
+(* one operand against the tree built from the common suffix *)
+Lemma tbc_side c t ctree ls sp s lsc spc sc :
+  c_pred c = None -> wf_obj t = true -> wf_obj ctree = true ->
+  flatten c t = Ok (ls, sp) -> sspec_of sp = Some s ->
+  flatten c ctree = Ok (lsc, spc) -> sspec_of spc = Some sc ->
+  fst (st_prefix (stree_of s) (stree_of sc)) = true ->
+  exists subs ys b,
+    ss_flatten_up_to (c_reg c) s ctree = Ok subs /\
+    mapM (fun '(x, sub) => broadcast_leaves c x sub) (combine ls subs) = Ok ys /\
+    unflatten sp ys = Ok b /\ tree_broadcast_prefix c t ctree = Ok b.
+Proof.
+  intros Hp Wt Wc Ft Hs Fc Hsc HP.
+  destruct (proj2 (flattened_up_to_iff_prefix c t ctree ls sp s lsc spc sc Hp Wt Wc Ft Hs Fc Hsc) HP) as (subs & Hu).
+  destruct (flattened_subs_flatten c t ctree ls sp s lsc spc subs Hp Wt Wc Ft Hs Fc Hu) as (rs & HF).
+  (* sizes, well-formedness *)
+  destruct (flatten_good c t ls sp Wt Ft) as (s' & E & G). rewrite Hs in E. injection E as <-.
+  destruct (up_to_spec c t ls sp s ctree Ft Hs) as (tt & bt & Htt & Heq).
+  assert (Hst : stree_of s = tt).
+  { destruct (flatten_tflat c t ls sp Ft) as (t0 & b0 & Ht0 & Hsp & Hw). rewrite Htt in Ht0. injection Ht0 as <- <-.
+    subst sp. unfold sspec_of in Hs. cbn [trav] in Hs. rewrite (decode_encode tt (wf_arity_ok tt Hw)) in Hs. injection Hs as <-. reflexivity. }
+  pose proof Hu as Hu'. rewrite Heq in Hu'. rewrite Hst in G.
+  destruct (flatten_tflat c t ls sp Ft) as (t0 & b0 & Ht0 & _ & Hw0). rewrite Htt in Ht0. injection Ht0 as <- <-.
+  pose proof (up_to_wf c tt ctree subs G Wc Hu') as Wsubs.
+  assert (Hlen : length subs = length ls).
+  { rewrite (UpToArrProofs.up_to_count c tt ctree subs Hw0 G Hu').
+    destruct (flatten_decodes c t ls sp Ft) as (s2 & Hs2 & _ & Hl2 & _). rewrite Hs in Hs2. injection Hs2 as <-. rewrite <- Hst. exact Hl2. }
+  pose proof (tflat_leaves_leaflike c Hp _ t ls tt bt Wt Htt) as Hll.
+  destruct (bleaves_total c Hp ls subs rs Hlen Hll Wsubs HF) as (ys & Hys).
+  destruct (tree_broadcast_prefix_spec c t ctree ls sp s subs rs Hp Wt Wc Ft Hs Hu HF) as (b & _ & _ & _ & Hb & _).
+  exists subs, ys, b. split; [exact Hu|]. split; [exact (bleaves_mapM c _ _ Hys)|].
+  rewrite (tbp_unfold c t ctree ls sp s subs ys Ft Hs Hu Hlen Hys) in Hb. split; [exact Hb|].
+  rewrite (tbp_unfold c t ctree ls sp s subs ys Ft Hs Hu Hlen Hys). exact Hb.
+Qed.
+
+(* tree_broadcast_common: the tree built from the common suffix exists and has exactly that treespec;
+   both results are tree_broadcast_prefix of the operand against it *)
+Theorem tree_broadcast_common_spec c t o ls1 sp1 s1 ls2 sp2 s2 cs :
+  c_pred c = None -> wf_obj t = true -> wf_obj o = true ->
+  flatten c t = Ok (ls1, sp1) -> sspec_of sp1 = Some s1 ->
+  flatten c o = Ok (ls2, sp2) -> sspec_of sp2 = Some s2 ->
+  ss_broadcast s1 s2 = Ok cs ->
+  exists ctree spc b1 b2,
+    wf_obj ctree = true /\
+    flatten c ctree = Ok (repeat sentinel (st_leaves (stree_of cs)), spc) /\ trav spc = encode (stree_of cs) /\
+    tree_broadcast_common c t o = Ok (b1, b2) /\
+    tree_broadcast_prefix c t ctree = Ok b1 /\ tree_broadcast_prefix c o ctree = Ok b2.
+Proof.
+  intros Hp Wt Wo F1 S1 F2 S2 Hcs.
+  destruct (flatten_good c t ls1 sp1 Wt F1) as (s1' & E1 & G1). rewrite S1 in E1. injection E1 as <-.
+  destruct (flatten_good c o ls2 sp2 Wo F2) as (s2' & E2 & G2). rewrite S2 in E2. injection E2 as <-.
+  destruct (flatten_tflat c t ls1 sp1 F1) as (t1 & bb1 & Ht1 & Hsp1 & Hw1).
+  destruct (flatten_tflat c o ls2 sp2 F2) as (t2 & bb2 & Ht2 & Hsp2 & Hw2).
+  assert (Hst1 : stree_of s1 = t1).
+  { subst sp1. unfold sspec_of in S1. cbn [trav] in S1. rewrite (decode_encode t1 (wf_arity_ok t1 Hw1)) in S1. injection S1 as <-. reflexivity. }
+  assert (Hst2 : stree_of s2 = t2).
+  { subst sp2. unfold sspec_of in S2. cbn [trav] in S2. rewrite (decode_encode t2 (wf_arity_ok t2 Hw2)) in S2. injection S2 as <-. reflexivity. }
+  (* the join *)
+  pose proof Hcs as Hcs0. unfold ss_broadcast in Hcs0.
+  destruct (negb (Bool.eqb (ss_nil s1) (ss_nil s2))); [discriminate|].
+  destruct (negb (ns_compatible (ss_ns s1) (ss_ns s2))); [discriminate|].
+  destruct (st_join (stree_of s1) (stree_of s2)) as [j|] eqn:Ej; cbn [bind] in Hcs0; [|discriminate].
+  injection Hcs0 as Hcsj. assert (Hj : stree_of cs = j) by (rewrite <- Hcsj; reflexivity).
+  rewrite Hst1, Hst2 in Ej.
+  destruct (join_realise c Hp _ t o ls1 t1 bb1 ls2 t2 bb2 j Wt Wo Ht1 Ht2 Ej) as (oj & Woj & lsj & bj & Hoj).
+  pose proof (tflat_flatten c oj lsj j bj Hoj) as Foj.
+  destruct (flat_of_tflat c _ oj lsj j bj Hoj) as [_ Wj].
+  assert (Hlj : length lsj = st_leaves j).
+  { destruct (flatten_decodes c oj lsj _ Foj) as (sj & Hsj & _ & Hl & _). unfold sspec_of in Hsj. cbn [trav] in Hsj.
+    rewrite (decode_encode j (wf_arity_ok j Wj)) in Hsj. injection Hsj as <-. cbn [stree_of] in Hl. symmetry. exact Hl. }
+  destruct (flatten_unflatten_replace_wf c oj lsj _ (repeat sentinel (st_leaves j)) Hp Woj Foj) as (ctree & Wc & Huc & Fc).
+  { rewrite repeat_length. symmetry. exact Hlj. }
+  { apply forallb_forall. intros z Hz. apply repeat_spec in Hz. subst z. reflexivity. }
+  set (spc := {| trav := encode j; snil := c_nil c; sns := spec_ns c bj |}) in *.
+  set (sc := {| stree_of := j; ss_nil := c_nil c; ss_ns := spec_ns c bj |}).
+  assert (Hsc : sspec_of spc = Some sc).
+  { unfold sspec_of, spc. cbn [trav snil sns]. rewrite (decode_encode j (wf_arity_ok j Wj)). reflexivity. }
+  destruct (join_upper_bound t1 t2 j (eq_trans (f_equal good (eq_sym Hst1)) G1) (eq_trans (f_equal good (eq_sym Hst2)) G2) Ej) as [P1 P2].
+  destruct (tbc_side c t ctree ls1 sp1 s1 _ spc sc Hp Wt Wc F1 S1 Fc Hsc) as (subs1 & ys1 & b1 & Hu1 & Hm1 & Hun1 & Hb1).
+  { rewrite Hst1. exact P1. }
+  destruct (tbc_side c o ctree ls2 sp2 s2 _ spc sc Hp Wo Wc F2 S2 Fc Hsc) as (subs2 & ys2 & b2 & Hu2 & Hm2 & Hun2 & Hb2).
+  { rewrite Hst2. exact P2. }
+  exists ctree, spc, b1, b2. rewrite Hj. split; [exact Wc|]. split; [exact Fc|]. split; [reflexivity|].
+  split; [|split; assumption].
+  unfold tree_broadcast_common, sspec_res. rewrite F1, F2. cbn [bind]. rewrite S1, S2. cbn [bind]. rewrite Hcs. cbn [bind].
+  rewrite Hj, (unflatten_trav' (spec_of cs) spc) by (unfold spec_of; cbn [trav]; rewrite Hj; reflexivity).
+  rewrite Huc. cbn [bind]. rewrite Hu1. cbn [bind]. rewrite Hm1. cbn [bind]. rewrite Hun1. cbn [bind].
+  rewrite Hu2. cbn [bind]. rewrite Hm2. cbn [bind]. rewrite Hun2. reflexivity.
+Qed.
